@@ -53,6 +53,7 @@ func ids(n int) []uint16 {
 }
 
 type out struct {
+	retry     map[uint16]*scen.Result
 	res       map[uint16]*scen.Result
 	sendCount map[uint16]int
 	total     int
@@ -78,7 +79,7 @@ func storedFor(id uint16, members []uint16) []byte {
 }
 
 func run(c *harness.C, k cfg, f fault, r world.Chooser) *out {
-	o := &out{res: map[uint16]*scen.Result{}, sendCount: map[uint16]int{}}
+	o := &out{res: map[uint16]*scen.Result{}, retry: map[uint16]*scen.Result{}, sendCount: map[uint16]int{}}
 	rec := c.Bubble(func() {
 		members := ids(k.N)
 		w := world.New(members)
@@ -191,6 +192,25 @@ func run(c *harness.C, k cfg, f fault, r world.Chooser) *out {
 			}
 		}
 		o.steps = len(w.Trace)
+		if k.Op == "sign" && k.Stack == "S" && f.Kind != "none" {
+			// the same topic is signed again, without faults: whatever the first attempt left behind
+			// must not make this one panic or block
+			w.Net.Filter = nil
+			w.Advance(probe)
+			t0 := w.Now()
+			for _, id := range members {
+				w.Parties[id].Mpc.SetStoredData(storedFor(id, members))
+				scen.StartSign(w, w.Parties[id], rs, fmt.Sprint("retry", id), []byte("digest-c11"), "topic-c11", deadline)
+			}
+			w.Loop(&explore.Recorder{}, w.Now()+deadline+2*probe)
+			for _, id := range members {
+				r2 := rs.Get(fmt.Sprint("retry", id))
+				if r2 != nil && r2.Returned {
+					r2.At -= t0
+				}
+				o.retry[id] = r2
+			}
+		}
 		// background goroutines keep running after the calls returned: give them a virtual minute
 		w.Advance(time.Minute)
 		o.sendCount, o.total = cnt, total
@@ -242,6 +262,17 @@ func oracle(c *harness.C, k cfg, f fault, o *out) {
 	}
 }
 
+func retryOracle(c *harness.C, k cfg, f fault, o *out) {
+	for id, r := range o.retry {
+		if r == nil {
+			continue
+		}
+		if !r.Returned {
+			c.Violation("returns-by-deadline", fmt.Sprintf("c11-retry-never-returns:%s/%s/%s", k.Stack, k.Mode, f.Kind), fmt.Sprintf("%s %s: the fault-free retry on the same topic: party %d has not returned", k, f, id), replay{k, f})
+		}
+	}
+}
+
 func outcomeKey(o *out) string {
 	var ks []string
 	for id, r := range o.res {
@@ -263,6 +294,7 @@ func cell(c *harness.C, k cfg, f fault) *out {
 	c.Add("executions", 1)
 	c.Add("transitions", len(o.trace))
 	oracle(c, k, f, o)
+	retryOracle(c, k, f, o)
 	if c.Outcome(k.String() + "|" + f.Kind + "|" + outcomeKey(o) + "|" + fmt.Sprint(o.steps)) {
 		c.Sample("c11", map[string]interface{}{"cfg": k.String(), "fault": f.String(), "outcome": outcomeKey(o), "steps": o.steps})
 	}
@@ -287,6 +319,7 @@ func gen(c *harness.C) []harness.Case {
 		}
 	}
 	var cases []harness.Case
+	cases = append(cases, threadCases(c)...)
 	for _, k := range cfgs {
 		k := k
 		// fault-free run to learn the send counts (list time)
@@ -348,7 +381,7 @@ func gen(c *harness.C) []harness.Case {
 
 func TestCheck(t *testing.T) {
 	harness.Main(t, "C11", func(c *harness.C) []harness.Case {
-		if c.Replay != nil {
+		if c.Replay != nil && !strings.Contains(string(c.Replay), "\"backend\"") {
 			var rp replay
 			if json.Unmarshal(c.Replay, &rp) == nil {
 				return []harness.Case{{ID: os.Getenv("VERIF_ONLY"), Run: func(c *harness.C) { cell(c, rp.Cfg, rp.Fault) }}}
